@@ -3,7 +3,9 @@
   Property theorems only (helper lemmas live in Proofs/Lemmas/Audio.lean).
 -/
 import SoundeventModel.Audio
+import SoundeventModel.Audio.FileSys
 import Proofs.Lemmas.Audio
+import Proofs.Lemmas.History
 import Mathlib.Data.List.Induction
 namespace SE.Proofs.C15
 open SE SE.Audio
@@ -1172,6 +1174,138 @@ example : (runSession ⟨demoFile, 2, 4, 3 / 2⟩
 example : (runSession ⟨demoFile, 2, 4, 3 / 2⟩ [.loadClip (1 / 8) (3 / 2), .resample 0 6]).map
     (fun r => r.toOption.map fun v => (v.truthful, match v with | .audio a => a.exact | .spec _ => true)) =
     [some (true, true), some (true, false)] := by decide +kernel
+
+
+/-! ### the file system is state: the WAV file under a path is rewritten between loads (follow-up, wave 5)
+
+`SoundeventModel/Audio/FileSys.lean`: a one-cell-per-path file system, the calls `put` (somebody rewrites the
+file: a longer / shorter take, another samplerate, another channel count, other samples of equal length), `rm`,
+`Recording.from_file`, `load_clip`, `load_recording`.  Every read answers for the content its path holds at that
+moment; nothing an earlier call saw survives. -/
+section FileSystem
+open SE.Audio.FS SE.History
+
+/-- reads (`from_file`, `load_clip`, `load_recording`) never change the file system -/
+theorem C15_fs_reads_never_write (fs : FileSys) (c : Cmd) (h : c.target = none) : (exec fs c).1 = fs := by
+  cases c <;> simp_all [exec, Cmd.target]
+
+/-- calls that do not write to `p` leave what `p` holds alone -/
+theorem fs_frame (ys : List Cmd) (fs : FileSys) (p : String) (h : ∀ y ∈ ys, y.target ≠ some p) :
+    stateAfter exec fs ys p = fs p := by
+  induction ys generalizing fs with
+  | nil => rfl
+  | cons y ys ih =>
+    have hy := h y (by simp)
+    simp only [stateAfter]
+    rw [ih _ (fun z hz => h z (by simp [hz]))]
+    cases y with
+    | put q w =>
+      have : p ≠ q := fun e => hy (by simp [Cmd.target, e])
+      simp [exec, write, this]
+    | rm q =>
+      have : p ≠ q := fun e => hy (by simp [Cmd.target, e])
+      simp [exec, remove, this]
+    | fromFile q te => rfl
+    | loadClip r s e => rfl
+    | loadRecording r => rfl
+
+/-- **Load after rewrite (every history).**  Whatever calls `xs` came first — whatever the path held before
+    (a shorter or longer take, another samplerate, another channel count, other samples, nothing) and however
+    often it was loaded —, once the file under `p` has been (re)written with `w`, and whatever calls `ys` that do
+    not write to `p` follow (loads of any path, rewrites of other paths), every read of `p` answers for `w`:
+    `load_clip` returns the model's clip of `w`'s frames (so `C15_clip_length / _frames / _times` speak about the
+    *new* content), `load_recording` the model's recording of them, `Recording.from_file` describes `w`. -/
+theorem C15_fs_load_after_rewrite (fs0 : FileSys) (xs ys : List Cmd) (p : String) (w : Wav)
+    (hys : ∀ y ∈ ys, y.target ≠ some p) :
+    (∀ (r : Rec) (s e : Rat), r.path = p →
+      (exec (stateAfter exec fs0 (xs ++ Cmd.put p w :: ys)) (.loadClip r s e)).2
+        = .array (loadClip w.frames w.ch r.sr s e)) ∧
+    (∀ (r : Rec), r.path = p →
+      (exec (stateAfter exec fs0 (xs ++ Cmd.put p w :: ys)) (.loadRecording r)).2
+        = .array (loadRecording w.frames r.sr r.duration)) ∧
+    (∀ te : Rat, (exec (stateAfter exec fs0 (xs ++ Cmd.put p w :: ys)) (.fromFile p te)).2
+        = .recording ⟨p, (recordingOf w.frames.length w.fsr te).1, (recordingOf w.frames.length w.fsr te).2⟩) := by
+  have h1 : FS.read p (stateAfter exec fs0 (xs ++ Cmd.put p w :: ys)) = some w := by
+    rw [stateAfter_append]
+    simp only [stateAfter]
+    show stateAfter exec (exec (stateAfter exec fs0 xs) (Cmd.put p w)).1 ys p = some w
+    rw [fs_frame ys _ p hys]
+    simp [exec, write]
+  generalize stateAfter exec fs0 (xs ++ Cmd.put p w :: ys) = fs at h1
+  refine ⟨?_, ?_, ?_⟩
+  · intro r s e hr; subst hr; simp [exec, load, h1, answer]
+  · intro r hr; subst hr; simp [exec, load, h1, answer]
+  · intro te; simp [exec, load, h1, answer, recOf]
+
+/-- a take — the file is (re)written, described by `Recording.from_file`, a clip and the whole recording are
+    loaded — answers as the pure model does, in **every** file system -/
+theorem C15_fs_take (fs : FileSys) (t : Take) : (takeStep fs t).2 = takePure t := by
+  simp [takeStep, takeStepW, takePure, exec, load, FS.read, write, answer, outArray, recOf]
+
+/-- takes are history-free: no reachable file system changes an answer -/
+theorem C15_fs_history_free (fs0 : FileSys) : HistoryFree takeStep fs0 takePure :=
+  fun s _ t => C15_fs_take s t
+
+/-- **Every history of takes** — the same path again and again with longer, shorter, re-sampled, re-channelled,
+    re-valued files, other paths in between, any previous content — answers step by step as the pure model on the
+    content written at that step (instance of `History.historyFree_iff`) -/
+theorem C15_fs_history (fs0 : FileSys) (xs : List Take) : runS takeStep fs0 xs = runPure takePure xs :=
+  (historyFree_iff takeStep fs0 takePure).1 (C15_fs_history_free fs0) xs
+
+/-- … and the recording loaded at every step is exactly the frames written at that step, on the axis
+    `k / (file rate × expansion)` (for every time-expansion factor that keeps the samplerate whole) -/
+theorem C15_fs_history_recording (fs0 : FileSys) (xs : List Take)
+    (h : ∀ t ∈ xs, 0 < t.wav.fsr ∧ 0 < t.te ∧ ∃ m : Nat, (t.wav.fsr : Rat) * t.te = m) :
+    (runS takeStep fs0 xs).map (·.2) = xs.map fun t =>
+      .ok ⟨t.wav.frames, lattice 0 (1 / ((t.wav.fsr : Rat) * t.te)) t.wav.frames.length,
+           1 / ((t.wav.fsr : Rat) * t.te)⟩ := by
+  rw [C15_fs_history]
+  unfold runPure
+  rw [List.map_map]
+  apply List.map_congr_left
+  intro t ht
+  obtain ⟨hf, hte, hint⟩ := h t ht
+  simp only [Function.comp, takePure, recOf]
+  exact C15_recording_of_file t.wav.frames t.wav.fsr t.te hf hte hint
+
+/-! non-vacuity: a 3-frame take, then a 6-frame take under the same path (4 Hz, stereo), then a mono take at
+    8 Hz, another path in between; an implementation that keeps sound files open per path (seeded C15-10) is *not*
+    history-free on exactly that history: after the rewrite it still answers for the first take -/
+def exTake1 : Wav := ⟨demoFile.take 3, 2, 4⟩
+def exTake2 : Wav := ⟨demoFile, 2, 4⟩
+def exTake3 : Wav := ⟨[[7], [8], [9], [10]], 1, 8⟩
+def exTakes : List Take :=
+  [⟨"a.wav", exTake1, 1, 1 / 4, 5 / 4⟩, ⟨"a.wav", exTake2, 1, 1 / 4, 5 / 4⟩, ⟨"b.wav", exTake1, 1, 0, 1 / 2⟩,
+   ⟨"a.wav", exTake3, 1, 1 / 8, 1 / 2⟩, ⟨"a.wav", exTake1, 2, 0, 1 / 4⟩]
+def exView (o : TakeOut) : List (Option (List Frame × List Rat)) :=
+  [o.1.toOption.map fun a => (a.frames, a.times), o.2.toOption.map fun a => (a.frames, a.times)]
+
+example : (runS takeStep FS.empty exTakes).map exView =
+    [[some ([[2, -2], [3, -3], [0, 0], [0, 0]], [1 / 4, 1 / 2, 3 / 4, 1]),
+      some ([[1, -1], [2, -2], [3, -3]], [0, 1 / 4, 1 / 2])],
+     [some ([[2, -2], [3, -3], [4, -4], [5, -5]], [1 / 4, 1 / 2, 3 / 4, 1]),
+      some (demoFile, [0, 1 / 4, 1 / 2, 3 / 4, 1, 5 / 4])],
+     [some ([[1, -1], [2, -2]], [0, 1 / 4]), some ([[1, -1], [2, -2], [3, -3]], [0, 1 / 4, 1 / 2])],
+     [some ([[8], [9], [10]], [1 / 8, 1 / 4, 3 / 8]), some ([[7], [8], [9], [10]], [0, 1 / 8, 1 / 4, 3 / 8])],
+     [some ([[1, -1], [2, -2]], [0, 1 / 8]), some ([[1, -1], [2, -2], [3, -3]], [0, 1 / 8, 1 / 4])]] := by
+  decide +kernel
+example : ∀ t ∈ exTakes, 0 < t.wav.fsr ∧ 0 < t.te ∧ ∃ m : Nat, (t.wav.fsr : Rat) * t.te = m := by
+  intro t ht
+  simp only [exTakes, List.mem_cons, List.not_mem_nil, or_false] at ht
+  rcases ht with rfl | rfl | rfl | rfl | rfl
+  · exact ⟨by decide, by decide +kernel, 4, by decide +kernel⟩
+  · exact ⟨by decide, by decide +kernel, 4, by decide +kernel⟩
+  · exact ⟨by decide, by decide +kernel, 4, by decide +kernel⟩
+  · exact ⟨by decide, by decide +kernel, 8, by decide +kernel⟩
+  · exact ⟨by decide, by decide +kernel, 8, by decide +kernel⟩
+-- the stale-handle implementation: the second take of "a.wav" is answered from the first one's handle (frames
+-- that now exist come back as zeros; the recording's data no longer fits its axis: `shape`)
+example : ((runS (takeStepW execStale) (FS.empty, []) exTakes).map exView)[1]? =
+    some [some ([[2, -2], [3, -3], [0, 0], [0, 0]], [1 / 4, 1 / 2, 3 / 4, 1]), none] := by decide +kernel
+example : (runS (takeStepW execStale) (FS.empty, []) exTakes).map exView ≠ (runPure takePure exTakes).map exView := by
+  decide +kernel
+
+end FileSystem
 
 
 end SE.Proofs.C15
